@@ -162,7 +162,7 @@ CHECKS["C20"] = dict(
 
 CHECKS["C03"] = dict(
     category="model_checking",
-    text="Lexer.tla is a scanner that consumes input in every step (termination by construction) and Parser.tla is total; TLC enumerates every string of up to 3/4 pieces over a branch-separating alphabet and every token soup of up to 4 tokens (98k inputs, thorough: millions): the real tokenizer must agree with Lexer.tla on tokens, lines and error class and all four load entry points must return. Token-level prefixes, deletions, duplications and swaps of grammar documents are loaded strict, lenient and as fragment and judged by Parser.tla where free of IF_DATA/A2ML; 400 hostile A2ML x IF_DATA combinations run in isolated processes with time and memory limits; seeded random byte files go through load().",
+    text="Lexer.tla is a scanner that consumes input in every step (termination by construction) and Parser.tla is total; TLC enumerates every string of up to 3/4 pieces over a branch-separating alphabet and every token soup of up to 4 tokens (98k inputs, thorough: millions): the real tokenizer must agree with Lexer.tla on tokens, lines and error class and all four load entry points must return. Token-level prefixes, deletions, duplications and swaps of grammar documents are loaded strict, lenient and as fragment and judged by Parser.tla (IF_DATA through A2ml.tla); 760 hostile A2ML x IF_DATA combinations run in isolated processes with time and memory limits; seeded random byte files go through load().",
     design_ref="DESIGN.md §4.2, §4.3, §6 C03, §7",
     note="Exhaustive within the stated bounds for the lexer state machine; random bytes and the hostile A2ML list are exploration. A hang is observable only as a time-out (10 s per isolated case).",
     technique="TLA+ specs (Lexer.tla, Parser.tla) with TLC-enumerated inputs replayed into the real tokenizer and loader; isolated-process execution with limits for hostile inputs",
